@@ -31,6 +31,7 @@ let check_rs (t : toks) : string =
   (* oracle 1: payloads not disturbed by later bytes *)
   let disturbed = List.exists (fun (_, ty, _, a, e) -> ty = 118 && a <> e) recs in
   if disturbed then "ORACLE C13.payload_disturbed_by_later_bytes " ^ where
+  else if st = "stalled" then "ORACLE C13.server_stopped_serving_a_valid_stream " ^ where
   else begin
     (* oracle 2: same behaviour as the reference segmentation of this stream *)
     let o2 =
